@@ -65,6 +65,7 @@ class Census:
 		self.refs = []
 		self.created = 0
 		self.installed = False
+		self.limit = 4000
 
 	def install(self):
 		if self.installed:
@@ -79,8 +80,9 @@ class Census:
 				census.refs.append(weakref.ref(self))
 			except TypeError:
 				pass
-			if len(census.refs) > 4000:
+			if len(census.refs) > census.limit:
 				census.refs = [r for r in census.refs if r() is not None]
+				census.limit = max(4000, 2 * len(census.refs))     # amortised: never rescan a mostly-live list on every creation
 
 		Vector.__init__ = init
 		self.installed = True
